@@ -448,14 +448,24 @@ func TestC04Tamper(t *testing.T) {
 }
 
 func TestC04Replay(t *testing.T) {
-	var c Case
-	ok, err := kit.ReplayCase(&c)
+	var rc struct {
+		Case
+		Lengths *LCase `json:"lengths"`
+	}
+	ok, err := kit.ReplayCase(&rc)
 	if !ok {
 		t.Skip("no VERIF_REPLAY")
 	}
 	if err != nil {
 		t.Fatal(err)
 	}
+	if rc.Lengths != nil {
+		if v := runLCase(*rc.Lengths); v != "" {
+			t.Fatalf("C04 violated: %s", v)
+		}
+		return
+	}
+	c := rc.Case
 	if v := judge(c, runCase(c)); v != "" {
 		t.Fatalf("C04 violated: %s", v)
 	}
